@@ -60,3 +60,23 @@ Example C07_nonvacuous :
                 OAppend 9 (mkFrame 0 7 [97] None None None); ORemove 7; OReopen;
                 OAppend 10 (mkFrame 0 7 [97] None None None)].
 Proof. reflexivity. Qed.
+
+(* an import that turns a stored non-registration into the registration of the same id, and back, is inside the
+   hypotheses (since the F7 fix): the id is usable from exactly that moment, not usable after the reverse import,
+   and a reopen changes nothing *)
+Definition C07_flip_hist : list op :=
+  [OImport (mkFrame 3 0 xs_context None None None);
+   OImport (mkFrame 7 3 xs_context None None None);
+   OAppend 9 (mkFrame 0 7 [97] None None None);
+   OImport (mkFrame 7 0 xs_context None None None);
+   OAppend 10 (mkFrame 0 7 [97] None None None);
+   OImport (mkFrame 7 3 [97] None None None);
+   OAppend 11 (mkFrame 0 7 [97] None None None)].
+Example C07_flip_admissible : admissible 0 C07_flip_hist.
+Proof. reflexivity. Qed.
+Example C07_flip_usable :
+  mem 7 (s_ctxs (c_after 0 (firstn 2 C07_flip_hist))) = false /\
+  mem 7 (s_ctxs (c_after 0 (firstn 4 C07_flip_hist))) = true /\
+  mem 7 (s_ctxs (c_after 0 (firstn 6 C07_flip_hist))) = false /\
+  mem 7 (s_ctxs (c_after 0 (firstn 4 C07_flip_hist ++ [OReopen]))) = true.
+Proof. vm_compute. repeat split; reflexivity. Qed.
